@@ -6,6 +6,7 @@ import json, glob, os, re, sys
 DEST='/verif/seeded'
 notes=json.load(open('/verif/tools/seed_notes2.json'))
 notes.update(json.load(open('/verif/tools/seed_notes3.json')))
+if os.path.exists('/verif/tools/seed_notes4.json'): notes.update(json.load(open('/verif/tools/seed_notes4.json')))
 ONLY=sys.argv[1] if len(sys.argv)>1 else ''
 final={}
 for f in sorted(glob.glob(DEST+'/RESULTS.seed*.tsv')):
@@ -23,7 +24,7 @@ for d in sorted([d for d in glob.glob(DEST+'/C*-*') if os.path.isdir(d) and int(
         conf=m.get('confirmed',{})
         new={
           'seed': key, 'round': 2 if int(key.split('-')[1])<=6 else (3 if int(key.split('-')[1])<=9 else 4), 'breaks_property': key[:3],
-          'title': am.get('title',''), 'files_changed': am.get('files_changed',[]),
+          'title': am.get('title',''), 'mechanism_it_is_aimed_at': am.get('mechanism',''), 'files_changed': am.get('files_changed',[]),
           'what_breaks': am.get('what_breaks',''), 'needs_to_manifest': am.get('needs_to_manifest',''),
           'violated_clause_as_quoted_by_its_author': am.get('violated_clause',''),
           'hardness_as_judged_by_its_author': am.get('hardness',''),
